@@ -77,7 +77,7 @@ CHECKS = {
                 note="exceptions while building the initial configuration count as refused; no size-1 hyperedges"),
     "C17": dict(tech="runtime monitoring: postcondition oracles on HypergraphMT.fit / HySC.fit + trace monitor wrapped around _update_em, _initialize_psiOmega and enforce_constraint_u (truncation events, leave-one-out bookkeeping, Lagrange solves) + log-likelihood recomputed from the definition by DP + same-seed metamorphic pair",
                 ref="DESIGN.md 4/C17",
-                text="held on the explored hypergraphs x configurations except five open known findings (Lagrange multiplier solve, decreases after truncation, epsilon regime, cancellation with diverging affinity, assertion after NaN); exploration",
+                text="held on the explored hypergraphs x configurations except six open known findings (Lagrange multiplier solve, decreases after truncation, epsilon regime, cancellation with diverging affinity, assertion after NaN, size-1 hyperedges); exploration",
                 note="K <= number of non-isolated nodes; condition-aware tolerance for the definition check; ascent judged on steps without truncation"),
     "C18": dict(tech="runtime monitoring: " + POST + " (transition_matrix, RW_stationary_state, random_walk_density, random_walk, simplicial_contagion) + adversarial scripted replacement of numpy.random.random + sys.monitoring LINE probe recording the branches driven inside the contagion sweep + 15-line synchronous reference for the deterministic regimes",
                 ref="DESIGN.md 4/C18",
